@@ -140,7 +140,7 @@ def sponge(db, rep):
                     writers.add(p)
     bad_w = sorted(p for p in writers if not p.startswith(TRANSCRIPT + '::'))
     bad_m = sorted(p for p in makers if not p.startswith(TRANSCRIPT + '::'))
-    rep.ob('C08.sponge', 'who-may-write', not bad_w and len(writers) >= 3,
+    rep.ob('C08.sponge', 'who-may-write', not bad_w and len(writers) >= 1,
            f'functions writing Transcript fields: {sorted(w.split("::")[-1] for w in writers)}; outside the impl: {bad_w}',
            'crates/transcript/src/transcript.rs', cfg)
     rep.ob('C08.sponge', 'who-may-construct', not bad_m and len(makers) >= 1,
